@@ -4,6 +4,7 @@ import GohbaseVerif.Drive.C07
 import GohbaseVerif.Drive.C08
 import GohbaseVerif.Drive.C15
 import GohbaseVerif.Drive.C10
+import GohbaseVerif.Drive.C11
 import GohbaseVerif.Drive.C16
 import GohbaseVerif.Drive.C17
 import GohbaseVerif.Drive.Conn
@@ -22,6 +23,7 @@ def dispatch (line : String) : String :=
   | "c15" :: rest => Drive.C15.handle rest
   | "c05" :: rest => Drive.C05.handle rest
   | "c07" :: rest => Drive.C07.handle rest
+  | "c11" :: rest => Drive.C11.handle rest
   | "c10" :: rest => Drive.C10.handle rest
   | "c16" :: rest => Drive.C16.handle rest
   | "c17" :: rest => Drive.C17.handle rest
